@@ -284,25 +284,72 @@ def check_scores(ctx, ncases, model=True, only=None):
                 elif not isinstance(ex, ValueError):
                     ctx.fail("score-errors", "property", e.name, "wrong-exception:" + why, R.describe(case, req),
                              observed=exc_kind(ex) + ": " + str(ex)[:120], expected="ValueError", tags={"function": e.name, "why": why})
-    # mean-type: reduced value = Lean nan-mean over R of the preserve-all output
-    if pending:
-        ops = [{"op": "c01.scoreEval", "args": {"p": arr_json(pa), "R": Rl}} for (_, _, _, _, _, pa, Rl, _) in pending]
-        res = core.run_driver("C01", ops)
-        for (e, case, req, var, da, pa, Rl, tags), m in zip(pending, res):
-            ctx.batches.setdefault("mean-of-pointwise", {"cases": 0, "failed": 0})["cases"] += 1
-            dims, shape, vals = R.to_labelled(da)
-            # model dims: canonical order
-            md = m["dims"]
-            order = sorted(range(len(md)), key=lambda i: md[i])
-            marr = np.array([core.parse_fl(x) if x not in ("nan", "inf", "-inf") else float(x) for x in m["data"]], dtype=object).reshape(m["shape"] or ())
-            if md:
-                marr = np.transpose(marr, order)
-            mvals = list(np.ravel(marr)) if md else [marr.item() if hasattr(marr, "item") else marr]
-            ok = sorted(md) == dims and len(mvals) == len(vals) and all(core.close(x, y) for x, y in zip(vals, mvals))
-            if not ok:
-                ctx.fail("mean-of-pointwise", "property", e.name, "not-nanmean-of-pointwise", R.describe(case, req),
-                         observed={"var": var, "dims": dims, "values": vals}, expected={"dims": sorted(md), "values": [core.fl_str(x) for x in mvals]},
-                         tags=tags, theorem="scoreEval")
+    compare_mean_of_pointwise(ctx, pending)
+
+
+def compare_mean_of_pointwise(ctx, pending, batch="mean-of-pointwise"):
+    """mean-type scores: reduced value = Lean nan-mean over R of the function's own preserve-all output"""
+    if not pending:
+        return
+    ops = [{"op": "c01.scoreEval", "args": {"p": arr_json(pa), "R": Rl}} for (_, _, _, _, _, pa, Rl, _) in pending]
+    res = core.run_driver("C01", ops)
+    for (e, case, req, var, da, pa, Rl, tags), m in zip(pending, res):
+        ctx.batches.setdefault(batch, {"cases": 0, "failed": 0})["cases"] += 1
+        dims, shape, vals = R.to_labelled(da)
+        # model dims: canonical order
+        md = m["dims"]
+        order = sorted(range(len(md)), key=lambda i: md[i])
+        marr = np.array([core.parse_fl(x) if x not in ("nan", "inf", "-inf") else float(x) for x in m["data"]], dtype=object).reshape(m["shape"] or ())
+        if md:
+            marr = np.transpose(marr, order)
+        mvals = list(np.ravel(marr)) if md else [marr.item() if hasattr(marr, "item") else marr]
+        ok = sorted(md) == dims and len(mvals) == len(vals) and all(core.close(x, y) for x, y in zip(vals, mvals))
+        if not ok:
+            ctx.fail(batch, "property", e.name, "not-nanmean-of-pointwise", R.describe(case, req),
+                     observed={"var": var, "dims": dims, "values": vals}, expected={"dims": sorted(md), "values": [core.fl_str(x) for x in mvals]},
+                     tags=tags, theorem="scoreEval")
+
+
+def check_single_nan(ctx, only=None):
+    """deterministic NaN class: exactly ONE input (forecast, second forecast, observation or weights) has a NaN, at one
+    position, on an array with at least two cases along every dimension — the reduced value of every output variable
+    must still be the NaN-skipping mean of the function's own preserve-all output (a score that reduces its components
+    separately, or re-assembles a total from reduced parts, fails exactly here)."""
+    rng = ctx.rng
+    pending = []
+    for e in R.REGISTRY:
+        if e.kind != "mean" or (only and e.name not in only):
+            continue
+        slots = [a for a, _, _ in e.inputs] + (["weights"] if e.weights else [])
+        for slot in slots:
+            dd = sorted(rng.sample(R.UNIVERSE, 2))
+            case = R.gen_case(rng, e, data_dims=dd, obs_dims=list(dd), weights_dims=list(dd), sizes={d: 2 for d in R.UNIVERSE},
+                              with_weights=(slot == "weights" or rng.random() < 0.3))
+            tgt = case.weights if slot == "weights" else case.arrays[slot]
+            if tgt is None or tgt.dtype.kind != "f" or tgt.size < 2:
+                continue
+            v = np.array(tgt.values, dtype=float)
+            idx = tuple(rng.randrange(n) for n in v.shape)
+            if e.specific and slot != "weights" and any(str(d) in e.specific for d in tgt.dims) and e.ordered_specific:
+                continue
+            v[idx] = np.nan
+            if slot == "weights":
+                case.weights = tgt.copy(data=v)
+            else:
+                case.arrays[slot] = tgt.copy(data=v)
+            base, ex = safe_call(e, case, {"preserve_dims": "all"})
+            if ex is not None:
+                continue
+            for req, Rset in (({}, set(dd)), ({"reduce_dims": [R.fresh(dd[0])]}, {dd[0]}), ({"preserve_dims": [R.fresh(dd[0])]}, {dd[1]})):
+                out, ex = safe_call(e, case, req)
+                ctx.case("single-nan", {"function": e.name, "nan_in": slot, "request": {k: list(v2) for k, v2 in req.items()}}, nontrivial=ex is None)
+                ctx.tag("single-nan:" + ("weights" if slot == "weights" else dict((a, r) for a, _, r in e.inputs)[slot]))
+                if ex is not None:
+                    continue
+                for var, da in out.items():
+                    if var in base:
+                        pending.append((e, case, req, var, da, base[var], sorted(Rset), {"function": e.name, "nan_in": slot, "spelling": "single-nan"}))
+    compare_mean_of_pointwise(ctx, pending, batch="single-nan")
 
 
 def check_f9(ctx):
@@ -366,6 +413,7 @@ def correspondence(ctx):
 def oracle(ctx, boost):
     check_gather(ctx, "gather-vs-rule", "property", "spec")
     check_scores(ctx, ncases=ctx.n(3, 9) * (3 if boost else 1))
+    check_single_nan(ctx)
     check_f9(ctx)
 
 
